@@ -47,6 +47,10 @@ def instance(rng, e: dict, sexp: dict, mode: str = "random", depth: int = 0) -> 
         if e.get("nullable") and mode == "nulls":
             return None
         return prim(rng, e)
+    if e.get("nullable") and (mode == "nulls" or (mode == "random" and rng.random() < 0.25)):
+        return None      # any type expression may be nullable (richgen)
+    if k == "free_form":
+        return free_form(rng, e.get("variant", "any"), depth) if mode != "max" else FREE[0]
     if k == "enum_inline":
         return rng.choice(e["values"])
     if k in ("ref", "ref_enum", "ref_alias"):
@@ -68,6 +72,16 @@ def instance(rng, e: dict, sexp: dict, mode: str = "random", depth: int = 0) -> 
     if k == "object":
         return {}
     raise AssertionError(e)
+
+
+FREE = [{"a": 1, "b": [1, {"c": None}], "d": "x"}, {}, {"nested": {"deep": {"deeper": [True, 2.5, "s"]}}}, {"camelKey": "v", "snake_key": 0, "kebab-key": False}]
+
+
+def free_form(rng, variant: str, depth: int) -> Any:
+    """Free-form positions: any JSON object ({"type": "object"} / additionalProperties: true) or any JSON value ({})."""
+    if variant == "any":
+        return rng.choice(FREE + [1, "text", 2.5, True, [1, "two", {"three": 3}]])
+    return rng.choice(FREE)
 
 
 def obj(rng, props: dict, sexp: dict, mode: str, depth: int) -> dict:
@@ -94,7 +108,14 @@ def named(rng, name: str, sexp: dict, mode: str = "random", depth: int = 0) -> A
     e = sexp[name]
     k = e["kind"]
     if k == "object":
-        return obj(rng, e["props"], sexp, mode, depth)
+        out = obj(rng, e["props"], sexp, mode, depth)
+        if e.get("extras") and mode in ("max", "random"):
+            # keys beyond the declared properties, allowed by the schema's additionalProperties
+            out["extraOne"] = instance(rng, e["extras"], sexp, mode, depth + 1)
+            out["extra_two"] = instance(rng, e["extras"], sexp, mode, depth + 1)
+        return out
+    if k == "map_alias":
+        return instance(rng, {"kind": "map", "values": e["values"]}, sexp, mode, depth)
     if k == "enum":
         return rng.choice(e["values"])
     if k == "array_alias":
